@@ -234,6 +234,7 @@ def run_case(ctx, case):
     sig_by = {}
     on_limit_by = {}
     premature = {}
+    stuck = {}
     for minimizer, mb in results.items():
         p = np.array(mb.fit.parameter_values, dtype=float)
         if not np.all(np.isfinite(p)):
@@ -344,10 +345,12 @@ def run_case(ctx, case):
                 "local-minimum",
                 best >= c0 - tol,
                 lambda: dict(d, reference_cost_at_optimum=c0, lower_point=best_p, reference_cost_there=best, improvement=c0 - best, tolerance=tol, sigma_ref=sig_full, on_limit=on_limit),
-                key=(lambda: premature_scipy(case, results["scipy"], names, fixed, limited, tol)) if minimizer == "scipy" else None,
+                key=(lambda: premature_scipy(case, results["scipy"], names, fixed, limited, tol)) if minimizer == "scipy" else (lambda: stuck_on_limit(case, results["iminuit"], names, fixed, limited, dict(on_limit), best_p, best, tol)),
             )
             if best < c0 - tol:
                 premature[minimizer] = True
+                if minimizer == "iminuit" and on_limit:
+                    stuck["iminuit"] = True
             ctx.worst["improvement_found_" + minimizer] = max(ctx.worst.get("improvement_found_" + minimizer, 0.0), float(max(0.0, c0 - best)))
     # backends agree
     if len(sig_by) == 2:
@@ -359,7 +362,12 @@ def run_case(ctx, case):
             # one backend on a limit, the other not: compare costs instead (the optimum may sit within tolerance of the limit)
             ca = make_objective(results["iminuit"], names, fixed, limited)(pa)
             cb = make_objective(results["scipy"], names, fixed, limited)(pb)
-            ctx.check("backends-agree", abs(ca - cb) <= 1e-2, lambda: {"iminuit": pa, "scipy": pb, "on_limit": [la, lb], "costs": [ca, cb]}, key=lambda: "C06/scipy-backend-accepts-unconverged-result" if premature.get("scipy") else None)
+            ctx.check(
+                "backends-agree",
+                abs(ca - cb) <= 1e-2,
+                lambda: {"iminuit": pa, "scipy": pb, "on_limit": [la, lb], "costs": [ca, cb]},
+                key=lambda: "C06/scipy-backend-accepts-unconverged-result" if premature.get("scipy") else ("C06/iminuit-stays-on-limit-it-was-started-next-to" if stuck.get("iminuit") else None),
+            )
         else:
             s = np.maximum(sig_by["iminuit"], sig_by["scipy"])
             idx = [i for i, nm in enumerate(names) if nm not in fixed and nm not in la and s[i] > 0]
@@ -406,6 +414,25 @@ def premature_scipy(case, mb, names, fixed, limited, tol):
         c1 = cost(np.array(mb.fit.parameter_values, dtype=float))
         if c1 < c0 - tol:
             return "C06/scipy-backend-accepts-unconverged-result"
+    except Exception:
+        pass
+    return None
+
+
+def stuck_on_limit(case, mb, names, fixed, limited, on_limit, best_p, best, tol):
+    """open finding: MIGRAD works in an internal coordinate whose derivative vanishes at a limit; started next to a limit it can
+    run onto the limit and stay there although the optimum is interior.  Signature / explain-check: the reported optimum rests on a
+    limit, and the very same fit object restarted from the lower interior point converges to (at most) the lower cost."""
+    try:
+        if not on_limit:
+            return None
+        cost = make_objective(mb, names, fixed, limited)
+        mb.fit.set_parameter_values(**{nm: float(best_p[names.index(nm)]) for nm in names if nm not in fixed})
+        mb.fit.do_fit()
+        p2 = np.array(mb.fit.parameter_values, dtype=float)
+        still_on = any(abs(p2[names.index(nm)] - lim) <= 1e-6 * max(1.0, abs(lim)) for nm, lim in on_limit.items())
+        if cost(p2) <= best + 10 * tol and not still_on:
+            return "C06/iminuit-stays-on-limit-it-was-started-next-to"
     except Exception:
         pass
     return None
